@@ -132,14 +132,14 @@ class Sem:
             pat = t.fields[0]
             subject = ("attr", "name") if "Name" in v else ("attr", "relative-path")
             ci = v.startswith("Insensitive")
-            return f.pred("fnmatch-ci?" if ci else "fnmatch?", repr(str_key(pat)), repr(subject))
+            return f.pred("fnmatch-ci?" if ci else "fnmatch?", str_key(pat), subject)
         if v == "Pool":
-            return f.pred("member", repr(str_key(t.fields[0])), repr(("attr", "lov-pools")))
+            return f.pred("member", str_key(t.fields[0]), ("attr", "lov-pools"))
         if v == "Xattr":
-            return f.pred("xattr?", repr(str_key(t.fields[0])))
+            return f.pred("xattr?", str_key(t.fields[0]))
         if v == "XattrMatch":
             name, val = t.fields
-            return f.pred("xattr-value-matches", repr(str_key(name)), repr(str_key(val)))
+            return f.pred("xattr-value-matches", str_key(name), str_key(val))
         raise Unsupported("test %s" % v)
 
     # ------------------------------------------------------------------ actions
